@@ -41,6 +41,9 @@ import (
 type c19DNSOp struct {
 	Kind string `json:"kind"` // lookup | age | sleep
 	Host int    `json:"host"`
+	// Ended: the lookup is made by a caller whose context has already ended (a dial that was given up);
+	// the stub resolver answers all the same, so the lookup means what any other lookup means
+	Ended bool `json:"ended,omitempty"`
 }
 
 type c19DNSCase struct {
@@ -70,7 +73,11 @@ func c19DNSGen(t *rapid.T) c19DNSCase {
 					kind = "sleep"
 				}
 			}
-			prog = append(prog, c19DNSOp{Kind: kind, Host: rapid.IntRange(0, c.NHost-1).Draw(t, "host")})
+			op := c19DNSOp{Kind: kind, Host: rapid.IntRange(0, c.NHost-1).Draw(t, "host")}
+			if kind == "lookup" && rapid.IntRange(0, 4).Draw(t, "ended") == 0 {
+				op.Ended = true
+			}
+			prog = append(prog, op)
 		}
 		c.Progs = append(c.Progs, prog)
 	}
@@ -303,7 +310,13 @@ func c19DNSRun(out *c19Out, raw []byte) {
 				name := c19HostName(op.Host % c.NHost)
 				switch op.Kind {
 				case "lookup":
-					r.entry, r.cached = w.cache.lookup(ctx, name)
+					lctx := ctx
+					if op.Ended {
+						var cancel context.CancelFunc
+						lctx, cancel = context.WithCancel(ctx)
+						cancel()
+					}
+					r.entry, r.cached = w.cache.lookup(lctx, name)
 				case "age":
 					// what waiting for the duration would do to this entry, without the wait
 					w.cache.mutex.Lock()
@@ -340,6 +353,13 @@ func c19DNSRun(out *c19Out, raw []byte) {
 	s.await(first, on)
 
 	out.Class(fmt.Sprintf("size/%d", c.Size))
+	for _, prog := range c.Progs {
+		for _, op := range prog {
+			if op.Ended {
+				out.Class("lookup/by-a-caller-whose-context-ended")
+			}
+		}
+	}
 	if c.DurMs > 0 {
 		out.Class("time/real-duration")
 	} else {
